@@ -204,15 +204,20 @@ Print Assumptions c13_rayleigh_error_bound.
    answer of power_method itself); the basin is entered at the latest at the first k with
    4 g^(2k+2) sum_(i>=2) c_i^2 <= (1 - g) c_1^2 (c13_stop_rule_accuracy_after), and if the all-ones
    start vector satisfies this for k = 0 then EVERY Ok answer is accurate
-   (c13_stop_rule_accuracy_start).
-   What remains ORACLE-ONLY: (a') an exit BEFORE the basin is entered: for a start vector almost
-   orthogonal to the dominant eigenvector (c_1 tiny) the Rayleigh sequence lingers near another
+   (c13_stop_rule_accuracy_start).  Gap (b), the eigenvector residual, is proved likewise (END of
+   file): every state (rho, x) of the model has rho = Rayleigh quotient of that same x and
+   ||A x - rho x||^2 <= (1+g) |l1| |rho - l1| ||x||^2 (c13_residual_bound); with the stop-rule
+   theorem the returned pair satisfies ||A v - lam v||^2 < (1+g) tol l1^2 ||v||^2, i.e.
+   ||A v - lam v|| < sqrt(1.5 tol) |l1| ||v||, and < sqrt(6 tol) |lam| ||v|| with the returned lam
+   (|l1| <= 2 |lam| in the basin): c13_residual_accuracy_pm (from the basin),
+   c13_residual_accuracy_start / _start_ev (start vector inside the basin).
+   What remains ORACLE-ONLY: (a') for BOTH bounds, an exit BEFORE the basin is entered: for a
+   start vector almost orthogonal to the dominant eigenvector (c_1 tiny) the Rayleigh sequence lingers near another
    eigenvalue, two consecutive estimates can agree to within tol there and the algorithm stops
    early with a wrong answer; no theorem can exclude this without a quantitative lower bound on
    |c_1| in terms of tol, which is why the property's hypothesis "not orthogonal" is quantified in
-   the check over random Q and the oracle measures it; (b) the eigenvector residual bound
-   ||A v - lam v|| <= C sqrt(tol) |lam| ||v||; (c) the existence of the eigen-decomposition (spectral
-   theorem) for symmetric A; (d) rounding.
+   the check over random Q and the oracle measures it; (c) the existence of the
+   eigen-decomposition (spectral theorem) for symmetric A; (d) rounding.
    Proved here: the case n = 1, where the answer is exact. *)
 Theorem c13_accuracy_partial : forall a es : R, a <> 0 -> 0 < es ->
   power_method [[a]] es = Ok (a, mk_arr 1 1 [1]).
@@ -444,3 +449,166 @@ Proof. exact Proofs.PowerStop.stop_example. Qed.
 Example c13_stop_rule_pm_nonvacuous : exists ev v, power_method [[2]] (1 / 2) = Ok (ev, v) /\
   Rabs (ev - 2) < 1 / 2 * Rabs 2.
 Proof. exact Proofs.PowerStop.stop_pm_example. Qed.
+
+(* ---- gap (b): the eigenvector residual (Proofs/PowerStop.v, Part 4) -----------------------
+   Squared form, no sqrt; vocabulary of c13_rayleigh_residual (vi = aget v i 0, Av = mvf n (aget A) vi). *)
+
+(* (8) Every state (rho, x) of the model: x is not the zero vector, rho is the Rayleigh quotient of
+   that SAME vector x (state k pairs rho_k with x_k = y_k / P, y_k = A^(k+1) ones), and
+   ||A x - rho x||^2 <= (1+g) |lam_0| |rho - lam_0| ||x||^2: the residual is controlled by the
+   eigenvalue error of that vector's own Rayleigh quotient.  (Minimality of the Rayleigh quotient,
+   then sum_i w_i (lam_i - lam_0)^2 <= (1+g) |lam_0| sum_i w_i | |lam_0| - s lam_i |.) *)
+Theorem c13_residual_bound : forall (n : nat) (A : arr R) (q : nat -> nat -> R) (lam c : nat -> R) (g : R),
+  (1 <= n)%nat -> ah A = n -> aw A = n ->
+  (forall i j, (i < n)%nat -> (j < n)%nat ->
+     dotf n (q i) (q j) = if (i =? j)%nat then 1 else 0) ->
+  (forall i s, (i < n)%nat -> (s < n)%nat -> mvf n (aget A) (q i) s = lam i * q i s) ->
+  (forall t, (t < n)%nat -> 1 = rsum n (fun i => c i * q i t)) ->
+  c 0%nat <> 0 -> lam 0%nat <> 0 -> 0 <= g <= 1 / 2 ->
+  (forall i, (1 <= i < n)%nat -> Rabs (lam i) <= g * Rabs (lam 0%nat)) ->
+  forall k rho x, pm_state A k = Ok (rho, x) ->
+    let xi := fun i => aget x i 0 in
+    0 < rsum n (fun s => xi s ^ 2) /\
+    rho = rqf n (aget A) xi /\
+    rsum n (fun s => (mvf n (aget A) xi s - rho * xi s) ^ 2) <=
+    (1 + g) * Rabs (lam 0%nat) * Rabs (rho - lam 0%nat) * rsum n (fun s => xi s ^ 2).
+Proof. exact Proofs.PowerStop.residual_bound. Qed.
+Check c13_residual_bound : forall (n : nat) (A : arr R) (q : nat -> nat -> R) (lam c : nat -> R) (g : R),
+  (1 <= n)%nat -> ah A = n -> aw A = n ->
+  (forall i j, (i < n)%nat -> (j < n)%nat ->
+     dotf n (q i) (q j) = if (i =? j)%nat then 1 else 0) ->
+  (forall i s, (i < n)%nat -> (s < n)%nat -> mvf n (aget A) (q i) s = lam i * q i s) ->
+  (forall t, (t < n)%nat -> 1 = rsum n (fun i => c i * q i t)) ->
+  c 0%nat <> 0 -> lam 0%nat <> 0 -> 0 <= g <= 1 / 2 ->
+  (forall i, (1 <= i < n)%nat -> Rabs (lam i) <= g * Rabs (lam 0%nat)) ->
+  forall k rho x, pm_state A k = Ok (rho, x) ->
+    let xi := fun i => aget x i 0 in
+    0 < rsum n (fun s => xi s ^ 2) /\
+    rho = rqf n (aget A) xi /\
+    rsum n (fun s => (mvf n (aget A) xi s - rho * xi s) ^ 2) <=
+    (1 + g) * Rabs (lam 0%nat) * Rabs (rho - lam 0%nat) * rsum n (fun s => xi s ^ 2).
+Print Assumptions c13_residual_bound.
+
+(* (9) The returned pair: if the estimate before the last loop body was inside the basin, then
+   ||A v - ev v||^2 < (1+g) es lam_0^2 ||v||^2, i.e. ||A v - ev v|| < sqrt(1.5 es) |lam_0| ||v||. *)
+Theorem c13_residual_accuracy_pm : forall (rows : list (list R)) (es ev : R) (v : arr R)
+    (n : nat) (A : arr R) (q : nat -> nat -> R) (lam c : nat -> R) (g : R),
+  power_method rows es = Ok (ev, v) -> try_from rows = Ok A ->
+  (1 <= n)%nat -> ah A = n -> aw A = n ->
+  (forall i j, (i < n)%nat -> (j < n)%nat ->
+     dotf n (q i) (q j) = if (i =? j)%nat then 1 else 0) ->
+  (forall i s, (i < n)%nat -> (s < n)%nat -> mvf n (aget A) (q i) s = lam i * q i s) ->
+  (forall t, (t < n)%nat -> 1 = rsum n (fun i => c i * q i t)) ->
+  c 0%nat <> 0 -> lam 0%nat <> 0 -> 0 <= g <= 1 / 2 ->
+  (forall i, (1 <= i < n)%nat -> Rabs (lam i) <= g * Rabs (lam 0%nat)) ->
+  exists (k : nat) (prev : R) (x : arr R),
+    (N.of_nat k < MAX_ITERATIONS)%N /\
+    pm_state A k = Ok (prev, x) /\ pm_state A (S k) = Ok (ev, v) /\
+    (Rabs (prev - lam 0%nat) <= (1 - g) * Rabs (lam 0%nat) / 2 ->
+     let vi := fun i => aget v i 0 in
+     let Av := mvf n (aget A) vi in
+     rsum n (fun i => (Av i - ev * vi i) ^ 2) <
+     (1 + g) * es * lam 0%nat ^ 2 * rsum n (fun i => vi i ^ 2)).
+Proof. exact Proofs.PowerStop.residual_accuracy_pm. Qed.
+Check c13_residual_accuracy_pm : forall (rows : list (list R)) (es ev : R) (v : arr R)
+    (n : nat) (A : arr R) (q : nat -> nat -> R) (lam c : nat -> R) (g : R),
+  power_method rows es = Ok (ev, v) -> try_from rows = Ok A ->
+  (1 <= n)%nat -> ah A = n -> aw A = n ->
+  (forall i j, (i < n)%nat -> (j < n)%nat ->
+     dotf n (q i) (q j) = if (i =? j)%nat then 1 else 0) ->
+  (forall i s, (i < n)%nat -> (s < n)%nat -> mvf n (aget A) (q i) s = lam i * q i s) ->
+  (forall t, (t < n)%nat -> 1 = rsum n (fun i => c i * q i t)) ->
+  c 0%nat <> 0 -> lam 0%nat <> 0 -> 0 <= g <= 1 / 2 ->
+  (forall i, (1 <= i < n)%nat -> Rabs (lam i) <= g * Rabs (lam 0%nat)) ->
+  exists (k : nat) (prev : R) (x : arr R),
+    (N.of_nat k < MAX_ITERATIONS)%N /\
+    pm_state A k = Ok (prev, x) /\ pm_state A (S k) = Ok (ev, v) /\
+    (Rabs (prev - lam 0%nat) <= (1 - g) * Rabs (lam 0%nat) / 2 ->
+     let vi := fun i => aget v i 0 in
+     let Av := mvf n (aget A) vi in
+     rsum n (fun i => (Av i - ev * vi i) ^ 2) <
+     (1 + g) * es * lam 0%nat ^ 2 * rsum n (fun i => vi i ^ 2)).
+Print Assumptions c13_residual_accuracy_pm.
+
+(* (10) ... unconditionally when the all-ones start vector is inside the basin (hypotheses of
+   c13_stop_rule_accuracy_start): EVERY Ok answer has a small residual. *)
+Theorem c13_residual_accuracy_start : forall (rows : list (list R)) (es ev : R) (v : arr R)
+    (n : nat) (A : arr R) (q : nat -> nat -> R) (lam c : nat -> R) (g : R),
+  power_method rows es = Ok (ev, v) -> try_from rows = Ok A ->
+  (1 <= n)%nat -> ah A = n -> aw A = n ->
+  (forall i j, (i < n)%nat -> (j < n)%nat ->
+     dotf n (q i) (q j) = if (i =? j)%nat then 1 else 0) ->
+  (forall i s, (i < n)%nat -> (s < n)%nat -> mvf n (aget A) (q i) s = lam i * q i s) ->
+  (forall t, (t < n)%nat -> 1 = rsum n (fun i => c i * q i t)) ->
+  c 0%nat <> 0 -> lam 0%nat <> 0 -> 0 <= g <= 1 / 2 ->
+  (forall i, (1 <= i < n)%nat -> Rabs (lam i) <= g * Rabs (lam 0%nat)) ->
+  4 * g ^ 2 * rsum (n - 1) (fun i => c (S i) ^ 2) <= (1 - g) * c 0%nat ^ 2 ->
+  let vi := fun i => aget v i 0 in
+  let Av := mvf n (aget A) vi in
+  rsum n (fun i => (Av i - ev * vi i) ^ 2) <
+  (1 + g) * es * lam 0%nat ^ 2 * rsum n (fun i => vi i ^ 2).
+Proof. exact Proofs.PowerStop.residual_accuracy_pm_start. Qed.
+Check c13_residual_accuracy_start : forall (rows : list (list R)) (es ev : R) (v : arr R)
+    (n : nat) (A : arr R) (q : nat -> nat -> R) (lam c : nat -> R) (g : R),
+  power_method rows es = Ok (ev, v) -> try_from rows = Ok A ->
+  (1 <= n)%nat -> ah A = n -> aw A = n ->
+  (forall i j, (i < n)%nat -> (j < n)%nat ->
+     dotf n (q i) (q j) = if (i =? j)%nat then 1 else 0) ->
+  (forall i s, (i < n)%nat -> (s < n)%nat -> mvf n (aget A) (q i) s = lam i * q i s) ->
+  (forall t, (t < n)%nat -> 1 = rsum n (fun i => c i * q i t)) ->
+  c 0%nat <> 0 -> lam 0%nat <> 0 -> 0 <= g <= 1 / 2 ->
+  (forall i, (1 <= i < n)%nat -> Rabs (lam i) <= g * Rabs (lam 0%nat)) ->
+  4 * g ^ 2 * rsum (n - 1) (fun i => c (S i) ^ 2) <= (1 - g) * c 0%nat ^ 2 ->
+  let vi := fun i => aget v i 0 in
+  let Av := mvf n (aget A) vi in
+  rsum n (fun i => (Av i - ev * vi i) ^ 2) <
+  (1 + g) * es * lam 0%nat ^ 2 * rsum n (fun i => vi i ^ 2).
+Print Assumptions c13_residual_accuracy_start.
+
+(* (11) ... and with the RETURNED eigenvalue on the right (the property's form, |lam_0| <= 2 |ev|):
+   ||A v - ev v|| < sqrt(6 es) |ev| ||v||. *)
+Theorem c13_residual_accuracy_start_ev : forall (rows : list (list R)) (es ev : R) (v : arr R)
+    (n : nat) (A : arr R) (q : nat -> nat -> R) (lam c : nat -> R) (g : R),
+  power_method rows es = Ok (ev, v) -> try_from rows = Ok A ->
+  (1 <= n)%nat -> ah A = n -> aw A = n ->
+  (forall i j, (i < n)%nat -> (j < n)%nat ->
+     dotf n (q i) (q j) = if (i =? j)%nat then 1 else 0) ->
+  (forall i s, (i < n)%nat -> (s < n)%nat -> mvf n (aget A) (q i) s = lam i * q i s) ->
+  (forall t, (t < n)%nat -> 1 = rsum n (fun i => c i * q i t)) ->
+  c 0%nat <> 0 -> lam 0%nat <> 0 -> 0 <= g <= 1 / 2 ->
+  (forall i, (1 <= i < n)%nat -> Rabs (lam i) <= g * Rabs (lam 0%nat)) ->
+  4 * g ^ 2 * rsum (n - 1) (fun i => c (S i) ^ 2) <= (1 - g) * c 0%nat ^ 2 ->
+  let vi := fun i => aget v i 0 in
+  let Av := mvf n (aget A) vi in
+  rsum n (fun i => (Av i - ev * vi i) ^ 2) <
+  4 * (1 + g) * es * ev ^ 2 * rsum n (fun i => vi i ^ 2).
+Proof. exact Proofs.PowerStop.residual_accuracy_pm_start_ev. Qed.
+Check c13_residual_accuracy_start_ev : forall (rows : list (list R)) (es ev : R) (v : arr R)
+    (n : nat) (A : arr R) (q : nat -> nat -> R) (lam c : nat -> R) (g : R),
+  power_method rows es = Ok (ev, v) -> try_from rows = Ok A ->
+  (1 <= n)%nat -> ah A = n -> aw A = n ->
+  (forall i j, (i < n)%nat -> (j < n)%nat ->
+     dotf n (q i) (q j) = if (i =? j)%nat then 1 else 0) ->
+  (forall i s, (i < n)%nat -> (s < n)%nat -> mvf n (aget A) (q i) s = lam i * q i s) ->
+  (forall t, (t < n)%nat -> 1 = rsum n (fun i => c i * q i t)) ->
+  c 0%nat <> 0 -> lam 0%nat <> 0 -> 0 <= g <= 1 / 2 ->
+  (forall i, (1 <= i < n)%nat -> Rabs (lam i) <= g * Rabs (lam 0%nat)) ->
+  4 * g ^ 2 * rsum (n - 1) (fun i => c (S i) ^ 2) <= (1 - g) * c 0%nat ^ 2 ->
+  let vi := fun i => aget v i 0 in
+  let Av := mvf n (aget A) vi in
+  rsum n (fun i => (Av i - ev * vi i) ^ 2) <
+  4 * (1 + g) * es * ev ^ 2 * rsum n (fun i => vi i ^ 2).
+Print Assumptions c13_residual_accuracy_start_ev.
+
+(* non-vacuity of (8): state 1 of diag(2, 1) (q_i = e_i, c = (1, 1), g = 1/2) *)
+Example c13_residual_bound_nonvacuous : exists rho x,
+  pm_state (mk_arr 2 2 [2; 0; 0; 1]) 1 = Ok (rho, x) /\
+  0 < rsum 2 (fun s => aget x s 0 ^ 2) /\
+  rsum 2 (fun s => (mvf 2 (aget (mk_arr 2 2 [2; 0; 0; 1])) (fun i => aget x i 0) s - rho * aget x s 0) ^ 2) <=
+  (1 + 1 / 2) * Rabs 2 * Rabs (rho - 2) * rsum 2 (fun s => aget x s 0 ^ 2).
+Proof. exact Proofs.PowerStop.residual_example. Qed.
+(* non-vacuity of (9)-(11): the 1 x 1 matrix (2), g = 0 *)
+Example c13_residual_pm_nonvacuous : exists ev v, power_method [[2]] (1 / 2) = Ok (ev, v) /\
+  rsum 1 (fun i => (mvf 1 (aget (mk_arr 1 1 [2])) (fun i => aget v i 0) i - ev * aget v i 0) ^ 2) <
+  (1 + 0) * (1 / 2) * 2 ^ 2 * rsum 1 (fun i => aget v i 0 ^ 2).
+Proof. exact Proofs.PowerStop.residual_pm_example. Qed.
